@@ -13,7 +13,7 @@ def run(ctx: Ctx):
         'dev rank clause is the Loose reading: no strict inversion of mean y between train and dev',
         'frequencies compared exactly (n<=64 envelope)',
     ]
-    cc.design_runs(ctx, ['Inv_C02'])
+    cc.design_runs(ctx, ['Inv_C02'], thorough=cc.DESIGN_QUICK + ['MC_Carver_dev_thorough.cfg', 'MC_Carver_nan_thorough.cfg'])
     cc.carver_pipeline(ctx, 'C02_', nontrivial=lambda c, info: c['kept'] and len({r[0] for r in c['out_tr']} - {0}) >= 2)
     ctx.exhaustive = ctx.tier == 'thorough'
     ctx.exhaustive_domain = 'binary tables K<=3 cells 0..2 x configurations; quick samples it'
